@@ -691,6 +691,7 @@ type scenario struct {
 	storeReady bool
 	rc         *recreate // re-creation script (recreate.go); nil: not played in this chain
 	chainedN   int       // blocks with intra-block Qi chains built so far (chained.go)
+	invalidN   int       // foreign-miner blocks with an invalid Qi spend offered so far (chained.go)
 }
 
 func (s *scenario) foreignQiEtx(to common.Address, den uint8, idx uint16) *types.Transaction {
@@ -1186,6 +1187,8 @@ func runChain(spec ChainSpec, a *actors, tmp string) (res chainResult) {
 	var backlog types.Transactions
 	parentContent := map[string]entry{} // primary's content before the block
 	var hist []histEntry                // per appended block: block, content, recorded double removals
+	var blkTerms []func(string) string  // per appended block: its Coq record with a given o_undone
+	var onlyUts, hasUndone []bool       // per appended block: only 'ut' operations; o_undone already set
 	var prevScan []entry
 
 	for step := 0; step < spec.Len; step++ {
@@ -1201,6 +1204,24 @@ func runChain(spec ChainSpec, a *actors, tmp string) (res chainResult) {
 		}
 		no := block.NumberU64(common.ZONE_CTX)
 		if spec.Kind == "chained" && step >= 2 {
+			// a foreign miner's block that MUST be refused: a Qi transaction naming the same outpoint twice (at any input
+			// position), two transactions of the block spending the same output. The node's own worker never assembles
+			// these (it has its own duplicate check); the import path has to refuse them on its own. If the node's
+			// Process + ValidateState accept one, the chain goes on with it (the scan-vs-commitment monitors and the model
+			// then see what it did to the committed set).
+			if itxs, ifees, ishape := sc.invalidTxs(prim, prevScan); len(itxs) > 0 {
+				var nb *types.WorkObject
+				var rerr error
+				timed("reseal", func() { nb, rerr = prim.z.VerifC06Reseal(block, itxs, ifees) })
+				if rerr != nil {
+					rep.Count("invalid_qi_spend_block_refused_" + ishape)
+				} else {
+					failCase(sigInvalidSpend+":"+ishape, fmt.Sprintf("block %d of a foreign miner whose Qi transactions spend one output twice (%s) is executed and validated by the node (Process + ValidateState accept it)", no, ishape), spec, no, ishape)
+					block = nb
+				}
+			}
+		}
+		if spec.Kind == "chained" && step >= 2 && len(block.QiTransactions()) == 0 {
 			// the block of a foreign miner: Qi transactions spending outputs created earlier in the same block
 			if ctxs, fees, shape := sc.chainedTxs(prim, prevScan, no); len(ctxs) > 0 {
 				var nb *types.WorkObject
@@ -1471,6 +1492,9 @@ func runChain(spec ChainSpec, a *actors, tmp string) (res chainResult) {
 				onlyUt = false
 			}
 		}
+		blkTerms = append(blkTerms, blkTerm)
+		onlyUts = append(onlyUts, onlyUt)
+		hasUndone = append(hasUndone, false)
 		parentContent = newParent
 		prevScan = primScan
 		he := histEntry{block: block, scan: primScan, dbl: map[string]int{}}
@@ -1515,15 +1539,27 @@ func runChain(spec ChainSpec, a *actors, tmp string) (res chainResult) {
 				var undone []entry
 				timed("headswitch", func() { ok, undone = headSwitch(nodes, prim, hist, k, spec) })
 				checkGuard("switching the head back and forward", no)
-				if undone != nil && onlyUt {
-					// the model rolls this block back too (Coq: rollback_block) and must arrive at the same content
+				// the model runs the same rollback loop over the same k blocks (Coq: switch_back) and must arrive at the
+				// same content; the observation is attached to the OLDEST of the k blocks (index len-k)
+				first := len(res.blocks) - k
+				allUt := first >= 0 && len(blkTerms) == len(res.blocks)
+				for i := first; allUt && i < len(res.blocks); i++ {
+					if !onlyUts[i] {
+						allUt = false
+					}
+				}
+				if undone != nil && allUt && !hasUndone[first] {
 					uc := make([][2]int, 0, len(undone))
 					for _, e := range undone {
 						uc = append(uc, [2]int{ix.key(e.key), ix.elem(e.hash)})
 					}
 					sort.Slice(uc, func(i, j int) bool { return uc[i][0] < uc[j][0] })
-					res.blocks[len(res.blocks)-1] = blkTerm("(Some " + coqDb(uc) + ")")
+					res.blocks[first] = blkTerms[first](fmt.Sprintf("(Some (%d%%nat, %s))", k, coqDb(uc)))
+					hasUndone[first] = true
 					rep.Count("block_rolled_back_in_model_too")
+					rep.Count(fmt.Sprintf("model_rollback_depth_%d", k))
+				} else if undone != nil {
+					rep.Count("head_switch_not_in_model_lockup_ops_or_already_recorded")
 				}
 				if !ok {
 					res.broken = "head switch failed"
